@@ -1,7 +1,7 @@
 #!/bin/sh
 # verify_seed.sh <seed dir>: confirm in a scratch worktree that the demonstration passes without the
 # change and fails with it, that the project builds and that the types test packages still pass.
-d=$1; id=$(basename $d); wt=/tmp/vs-$id
+d=$1; id=$(basename $d); wt=/tmp/vs-$id; git -C /repo worktree remove --force $wt 2>/dev/null
 export GOFLAGS=-mod=mod GOPROXY=off GOSUMDB=off GOTOOLCHAIN=local
 git -C /repo worktree add -q --detach $wt HEAD || exit 2
 mkdir -p $wt/verifdemo && cp $d/demo_test.go $wt/verifdemo/demo_test.go
